@@ -35,6 +35,7 @@ func init() {
 			{ID: "R20n", Floor: 1, Doc: "every stream writer starts from WriteAsCarV1(true), whatever its stream is: the constructor prepends the default on every path and does not inspect the stream's dynamic type", Run: ruleR20n},
 			{ID: "R20o", Floor: 1, Doc: "what DeferredCarWriter.Put does does not depend on the length of the content: an empty block notifies the listeners like any other", Run: ruleR20o},
 			{ID: "R20p", Floor: 1, Doc: "Put calls the callbacks that were registered, each once per Put, in order: the entry is read by value before the once-only removal splices the list", Run: ruleR20p},
+			{ID: "R20q", Floor: 1, Doc: "after a once-only callback was spliced out, the loop over the callbacks looks at the same slot again (i--, or no increment): the entry behind it is not skipped", Run: ruleR20q},
 		},
 	})
 }
